@@ -459,6 +459,11 @@ func (g *gen) build(n int) {
 		g.emit("EQUAL 0 1")
 		g.emit("EQUAL 1 0")
 		g.emit("ENCODE 1")
+		// copies handed out (C08): clone / MarshalBinary / GobEncode, then the source is scribbled over
+		g.emit("CLONEMUT 0 2")
+		g.emit("MARSHAL 0 %s", []string{"bin", "gob"}[g.r.intn(2)])
+		g.emit("WRITETO 0")
+		g.emit("MSGADDTO 0 1") // (*Message).AddTo: slot 1 takes slot 0's transaction id
 	}
 }
 
